@@ -5,7 +5,7 @@
    id) pairs in dict order.  The comparison with the model is computed here by vm_compute. *)
 From Coq Require Import List NArith Bool.
 From RopeVerif.Lib Require Import Text.
-From RopeVerif.C19 Require Import Tree Matcher Restructure.
+From RopeVerif.C19 Require Import Tree Matcher Restructure CodeTemplate.
 Import ListNotations.
 
 Record obs := {
@@ -16,6 +16,8 @@ Record obs := {
 
 Record case := {
   c_body : tree;
+  c_user : text;                  (* the pattern as given to rope, with ${x} *)
+  c_model : text;                 (* the text the harness parsed into c_pat *)
   c_pat : tree;                   (* ast.parse of the pattern after ${x} -> reserved names *)
   c_exact : list text;
   c_start : N;
@@ -56,10 +58,12 @@ Definition sound_on (c : case) (a : amatch) : bool :=
   end.
 
 (* 0 agree; 1 the match lists differ; 3 a model match that is not an instance although the searched
-   tree is free of reserved names (cannot happen while C19_match_sound is in force) *)
+   tree is free of reserved names (cannot happen while C19_match_sound is in force); 4 the model of
+   CodeTemplate / _replace_wildcards gives another pattern text than the one that was parsed *)
 Definition run_case (c : case) : N :=
   let ms := model_matches c in
-  if negb (list_eqb obs_eqb (map obs_of ms) (c_obs c)) then 1%N
+  if negb (text_eqb (replace_wildcards (c_user c)) (c_model c)) then 4%N
+  else if negb (list_eqb obs_eqb (map obs_of ms) (c_obs c)) then 1%N
   else if no_wild (c_body c) && negb (forallb (sound_on c) ms) then 3%N
   else 0%N.
 
@@ -86,7 +90,7 @@ Record rcase := {
   r_src : text;
   r_body : tree;
   r_pat : tree;
-  r_goal : template;              (* the goal cut at its ${name} occurrences by the harness *)
+  r_goal : text;                  (* the goal as given to rope; cut by the CodeTemplate model *)
   r_exact : list text;
   r_same : bool;
   r_sorted : bool;                (* true: statement matches replaced in source order (220be77) *)
@@ -95,7 +99,7 @@ Record rcase := {
 }.
 
 Definition model_restructure (c : rcase) : cres :=
-  restructure_text (acc_default (r_exact c)) (r_src c) (r_goal c) (r_sorted c) (r_same c) (r_body c) (r_pat c).
+  restructure_text (acc_default (r_exact c)) (r_src c) (cut (r_goal c)) (r_sorted c) (r_same c) (r_body c) (r_pat c).
 
 (* 0 agree; 1 differ; 2 model ran out of fuel *)
 Definition run_rcase (c : rcase) : N :=
@@ -132,3 +136,81 @@ Fixpoint mmismatches_from (i : N) (cs : list mcase) : list (N * N) :=
       if N.eqb code 0 then mmismatches_from (N.succ i) r else (i, code) :: mmismatches_from (N.succ i) r
   end.
 Definition mmismatches (cs : list mcase) : list (N * N) := mmismatches_from 0 cs.
+
+(* ---- CodeTemplate: placeholder occurrences and substitution ---- *)
+Record tcase := {
+  t_text : text;
+  t_occ : list (text * N * N);            (* rope: (name, start, end) of CodeTemplate.names, by start *)
+  t_map : list (text * text);             (* a mapping for every name *)
+  t_subst : text                          (* rope: CodeTemplate.substitute(mapping) *)
+}.
+Definition occ_eqb (a b : text * N * N) : bool :=
+  text_eqb (fst (fst a)) (fst (fst b)) && N.eqb (snd (fst a)) (snd (fst b)) && N.eqb (snd a) (snd b).
+Definition run_tcase (c : tcase) : N :=
+  if negb (list_eqb occ_eqb (find_names (t_text c)) (t_occ c)) then 1%N
+  else if negb (text_eqb (substitute (cut (t_text c)) (t_map c)) (t_subst c)) then 2%N
+  else 0%N.
+Fixpoint tmismatches_from (i : N) (cs : list tcase) : list (N * N) :=
+  match cs with
+  | [] => []
+  | c :: r =>
+      let code := run_tcase c in
+      if N.eqb code 0 then tmismatches_from (N.succ i) r else (i, code) :: tmismatches_from (N.succ i) r
+  end.
+Definition tmismatches (cs : list tcase) : list (N * N) := tmismatches_from 0 cs.
+
+(* ---- precedence printer: the model of coq/C19/Precedence.v against CPython's ast.unparse ----
+   p_goal / p_sg: a goal expression and the expressions bound to its wildcards, converted by the harness
+   with ast.unparse's own level tables; p_fits: CPython's printer gives the same text whether the
+   bound code is inserted into the tree or its text into the goal's text; p_tokens: the tokens of
+   ast.unparse of the substituted tree. *)
+From RopeVerif.C19 Require Import Precedence.
+Record pcase := {
+  p_goal : pexpr;
+  p_sg : list (N * pexpr);
+  p_ctx : nat;
+  p_fits : bool;
+  p_tokens : list text
+}.
+Definition sg_of (l : list (N * pexpr)) (w : N) : pexpr :=
+  match find (fun kv => N.eqb w (fst kv)) l with Some kv => snd kv | None => PHole w end.
+Definition flat_tokens (ts : list token) : list text :=
+  map (fun t => match t with TTok x => x | TOpen => [40%N] | TClose => [41%N] | THole _ => [36%N] end) ts.
+(* 0 agree; 1 [fits] differs from CPython's printer condition; 2 the printed tokens differ *)
+Definition run_pcase (c : pcase) : N :=
+  let sg := sg_of (p_sg c) in
+  if negb (Bool.eqb (fits sg (p_ctx c) (p_goal c)) (p_fits c)) then 1%N
+  else if negb (list_eqb text_eqb (flat_tokens (pp (p_ctx c) (psubst sg (p_goal c)))) (p_tokens c)) then 2%N
+  else 0%N.
+Fixpoint pmismatches_from (i : N) (cs : list pcase) : list (N * N) :=
+  match cs with
+  | [] => []
+  | c :: r =>
+      let code := run_pcase c in
+      if N.eqb code 0 then pmismatches_from (N.succ i) r else (i, code) :: pmismatches_from (N.succ i) r
+  end.
+Definition pmismatches (cs : list pcase) : list (N * N) := pmismatches_from 0 cs.
+
+(* restructuring cases inside the domain of C19_untouched_outside_expr: expression matches, the module
+   node spans the source and is no match, the outermost matched nodes have sane pairwise disjoint regions *)
+Definition roots_okb (len : N) (roots : list tree) : bool :=
+  forallb (fun n => N.leb (node_start n) (node_end n) && N.leb (node_end n) len) roots &&
+  (fix pw (l : list tree) : bool :=
+     match l with
+     | [] => true
+     | a :: r => forallb (fun b => N.leb (node_end a) (node_start b) || N.leb (node_end b) (node_start a)) r && pw r
+     end) roots.
+Definition in_expr_domain (c : rcase) : bool :=
+  let ms := get_matches (acc_default (r_exact c)) (r_body c) (create_pattern (r_pat c)) 0 (tlen (r_src c)) None in
+  match ms with
+  | MExpr _ _ :: _ =>
+      let matched := map (fun a => (match_ast_id a, a)) ms in
+      N.eqb (node_start (r_body c)) 0 && N.eqb (node_end (r_body c)) (tlen (r_src c))
+      && match find_matched matched (r_body c) with None => true | Some _ => false end
+      && roots_okb (tlen (r_src c)) (nearest matched (r_body c))
+  | _ => false
+  end.
+Definition count_rdom (cs : list rcase) : N := N.of_nat (length (filter in_expr_domain cs)).
+Definition count_rexpr (cs : list rcase) : N :=
+  N.of_nat (length (filter (fun c => match get_matches (acc_default (r_exact c)) (r_body c) (create_pattern (r_pat c)) 0
+                                             (tlen (r_src c)) None with MExpr _ _ :: _ => true | _ => false end) cs)).
